@@ -8,6 +8,7 @@
 (define-fun fdiv ((a Int) (b Int)) Int (div a b))
 ; pow2(n) = 1 << n on a 64-bit unsigned word (0 for n >= 64), spelled out so that it is exact
 (define-fun tm ((a Int) (b Int)) Int (* a b))
+(define-fun dv ((a Int) (b Int)) Int (div a b))
 (define-fun pow2 ((n Int)) Int (ite (= n 0) 1 (ite (= n 1) 2 (ite (= n 2) 4 (ite (= n 3) 8 (ite (= n 4) 16 (ite (= n 5) 32 (ite (= n 6) 64 (ite (= n 7) 128 (ite (= n 8) 256 (ite (= n 9) 512 (ite (= n 10) 1024 (ite (= n 11) 2048 (ite (= n 12) 4096 (ite (= n 13) 8192 (ite (= n 14) 16384 (ite (= n 15) 32768 (ite (= n 16) 65536 (ite (= n 17) 131072 (ite (= n 18) 262144 (ite (= n 19) 524288 (ite (= n 20) 1048576 (ite (= n 21) 2097152 (ite (= n 22) 4194304 (ite (= n 23) 8388608 (ite (= n 24) 16777216 (ite (= n 25) 33554432 (ite (= n 26) 67108864 (ite (= n 27) 134217728 (ite (= n 28) 268435456 (ite (= n 29) 536870912 (ite (= n 30) 1073741824 (ite (= n 31) 2147483648 (ite (= n 32) 4294967296 (ite (= n 33) 8589934592 (ite (= n 34) 17179869184 (ite (= n 35) 34359738368 (ite (= n 36) 68719476736 (ite (= n 37) 137438953472 (ite (= n 38) 274877906944 (ite (= n 39) 549755813888 (ite (= n 40) 1099511627776 (ite (= n 41) 2199023255552 (ite (= n 42) 4398046511104 (ite (= n 43) 8796093022208 (ite (= n 44) 17592186044416 (ite (= n 45) 35184372088832 (ite (= n 46) 70368744177664 (ite (= n 47) 140737488355328 (ite (= n 48) 281474976710656 (ite (= n 49) 562949953421312 (ite (= n 50) 1125899906842624 (ite (= n 51) 2251799813685248 (ite (= n 52) 4503599627370496 (ite (= n 53) 9007199254740992 (ite (= n 54) 18014398509481984 (ite (= n 55) 36028797018963968 (ite (= n 56) 72057594037927936 (ite (= n 57) 144115188075855872 (ite (= n 58) 288230376151711744 (ite (= n 59) 576460752303423488 (ite (= n 60) 1152921504606846976 (ite (= n 61) 2305843009213693952 (ite (= n 62) 4611686018427387904 (ite (= n 63) 9223372036854775808 0)))))))))))))))))))))))))))))))))))))))))))))))))))))))))))))))))
 (define-fun abs_int ((a Int)) Int (ite (>= a 0) a (- a)))
 ; truncation toward zero of a real (Go's float -> int conversion for values in range)
